@@ -40,6 +40,9 @@ type Expect struct {
 	desc      string
 }
 
+// Matched reports how many emissions the audit matched with this expectation.
+func (e *Expect) Matched() int { return e.matched }
+
 // emission is one observed data-plane output of the server.
 type emission struct {
 	Dir          string
